@@ -382,28 +382,127 @@ fn ir_class(e: &std::io::Error) -> String {
 
 const IR_LIMIT: usize = 1 << 24;
 
-fn irb_case(run: &mut Run, bytes: &[u8], kind: &str) {
-    let r = run.guarded("zkir-read_relation", "zkir-read_relation", bytes, 2 * IR_LIMIT + (1 << 20), || {
+/// The real `read_relation` on one byte string: canonical answer line.
+fn irb_answer(bytes: &[u8]) -> String {
+    let r = mzkh::catch(|| {
         let mut rd = bytes;
         let r = ZkirRelation::read_relation(&mut rd);
         (r, rd.len())
     });
-    let ans = match r {
-        None => "panic".to_string(),
-        Some((Err(e), _)) => format!("err {}", ir_class(&e)),
-        Some((Ok(rel), rest)) => {
+    match r {
+        Err(msg) => format!("panic {}", msg.replace(['\n', '\t'], " ")),
+        Ok((Err(e), _)) => format!("err {}", ir_class(&e)),
+        Ok((Ok(rel), rest)) => {
             let prog = rel.verif_instructions();
             format!("ok n={} dg={} rest={rest}", prog.len(), ir_digest(&prog))
         }
-    };
-    let op = format!(
-        "irb {} {} {} {}",
-        std::mem::size_of::<Instruction>(),
-        std::mem::size_of::<String>(),
-        IR_LIMIT,
-        hex(bytes)
-    );
-    run.case(&format!("irb:{kind}"), !ans.ends_with("eof"), &op, &ans);
+    }
+}
+
+/// Child mode (`h-c16 --irb-child <file> <start>`): decode the byte strings of `<file>` (one hex
+/// string per line) from index `<start>` on, printing `idx<TAB>peak<TAB>answer` after each. The
+/// bincode decoder pre-allocates from length prefixes; if the size limit of `read_relation` is ever
+/// lost, an input can ABORT the process (allocation failure is not a panic) — running the sweep in
+/// a child keeps the harness alive and lets it name the aborting input.
+pub fn irb_child(file: &str, start: usize) {
+    use std::io::Write;
+    mzkh::quiet_panics();
+    let text = std::fs::read_to_string(file).expect("case file");
+    let out = std::io::stdout();
+    for (idx, line) in text.lines().enumerate().skip(start) {
+        let bytes: Vec<u8> = if line == "-" {
+            vec![]
+        } else {
+            (0..line.len() / 2).map(|i| u8::from_str_radix(&line[2 * i..2 * i + 2], 16).unwrap()).collect()
+        };
+        let (ans, peak) = crate::alloc::measure(|| irb_answer(&bytes));
+        let mut o = out.lock();
+        writeln!(o, "{idx}\t{peak}\t{ans}").unwrap();
+        o.flush().unwrap();
+    }
+}
+
+/// Cases of the bincode sweep, decoded in a child process by `run_irb_batch`.
+pub struct IrbCases(Vec<(String, Vec<u8>)>);
+
+fn irb_case(cases: &mut IrbCases, bytes: &[u8], kind: &str) {
+    cases.0.push((kind.to_string(), bytes.to_vec()));
+}
+
+fn run_irb_batch(run: &mut Run, cases: IrbCases) {
+    let cases = cases.0;
+    let file = run.ctx.out_dir.join("irb_cases.txt");
+    std::fs::write(&file, cases.iter().map(|(_, b)| hex(b)).collect::<Vec<_>>().join("\n") + "\n").unwrap();
+    let exe = std::env::current_exe().expect("current_exe");
+    let mut answers: Vec<Option<(usize, String)>> = vec![None; cases.len()];
+    let mut start = 0;
+    let mut restarts = 0;
+    while start < cases.len() {
+        let out = std::process::Command::new(&exe)
+            .arg("--irb-child")
+            .arg(&file)
+            .arg(start.to_string())
+            .output()
+            .expect("spawn child");
+        let mut last = None;
+        for l in String::from_utf8_lossy(&out.stdout).lines() {
+            let mut it = l.splitn(3, '\t');
+            if let (Some(i), Some(p), Some(a)) = (it.next(), it.next(), it.next()) {
+                if let (Ok(i), Ok(p)) = (i.parse::<usize>(), p.parse::<usize>()) {
+                    answers[i] = Some((p, a.to_string()));
+                    last = Some(i);
+                }
+            }
+        }
+        let next = last.map(|i| i + 1).unwrap_or(start);
+        if next >= cases.len() && out.status.success() {
+            break;
+        }
+        // the child died while decoding case `next`
+        let stderr = String::from_utf8_lossy(&out.stderr);
+        let msg: String = stderr.lines().next().unwrap_or("").chars().take(200).collect();
+        answers[next] = Some((0, format!("abort {msg}")));
+        start = next + 1;
+        restarts += 1;
+        if restarts > 200 {
+            break;
+        }
+    }
+    run.ctx.count_n("irb-child-restarts", restarts);
+    let _ = std::fs::remove_file(&file);
+    for ((kind, bytes), ans) in cases.iter().zip(answers) {
+        let (peak, ans) = ans.unwrap_or((0, "abort (no answer)".to_string()));
+        run.ctx.count("guarded:zkir-read_relation");
+        let e = run.peaks.entry("zkir-read_relation".to_string()).or_insert((0, 0));
+        if peak > e.0 {
+            *e = (peak, bytes.len());
+        }
+        let bound = crate::alloc::ALLOC_C * bytes.len() + 2 * IR_LIMIT + (1 << 20);
+        if peak > bound {
+            run.ctx.oracle_fail(
+                "zkir-read_relation:alloc",
+                &format!("ZkirRelation::read_relation: peak allocation {peak} bytes for {} input bytes", bytes.len()),
+                json!({"what": "zkir-read_relation", "bytes_hex": hex(bytes), "len": bytes.len(), "peak": peak}),
+            );
+        }
+        if ans.starts_with("panic") || ans.starts_with("abort") {
+            let k = if ans.starts_with("panic") { "panic" } else { "abort" };
+            run.ctx.oracle_fail(
+                &format!("zkir-read_relation:{k}"),
+                &format!("ZkirRelation::read_relation on untrusted bytes: {ans}"),
+                json!({"what": "zkir-read_relation", "bytes_hex": hex(bytes), "len": bytes.len(), "outcome": ans}),
+            );
+        }
+        let shown = if ans.starts_with("panic") { "panic".to_string() } else if ans.starts_with("abort") { "abort".to_string() } else { ans };
+        let op = format!(
+            "irb {} {} {} {}",
+            std::mem::size_of::<Instruction>(),
+            std::mem::size_of::<String>(),
+            IR_LIMIT,
+            hex(bytes)
+        );
+        run.case(&format!("irb:{kind}"), !shown.ends_with("eof"), &op, &shown);
+    }
 }
 
 fn random_type(rng: &mut impl Rng) -> IrType {
@@ -487,6 +586,7 @@ const JSON_EXAMPLES: [&str; 4] = [
 ];
 
 pub fn run_ir(run: &mut Run) {
+    let mut cases = IrbCases(vec![]);
     let mut rng = run.ctx.rng("ir");
     let quick = run.ctx.quick();
 
@@ -548,7 +648,7 @@ pub fn run_ir(run: &mut Run) {
             let mut b = vec![];
             rel.write_relation(&mut b).unwrap();
             // what serde accepted, re-encoded by bincode, must decode to the same program in the model
-            irb_case(run, &b, &format!("from-json-{kind}"));
+            irb_case(&mut cases, &b, &format!("from-json-{kind}"));
             if bincodes.len() < (if quick { 10 } else { 24 }) && b.len() > 4 {
                 bincodes.push(b);
             }
@@ -594,7 +694,7 @@ pub fn run_ir(run: &mut Run) {
         vec![1, 0, 0, 0xfd, 0, 0, 0, 0, 0, 0, 0, 0x10],
         vec![0xfc, 0xff, 0xff, 0x03, 0x00],
     ] {
-        irb_case(run, &b, "regress-length-field");
+        irb_case(&mut cases, &b, "regress-length-field");
     }
     // programs that need not satisfy the arity check, encoded by the crate's own encoder
     for p in programs.iter().take(if quick { 40 } else { 600 }) {
@@ -603,7 +703,7 @@ pub fn run_ir(run: &mut Run) {
         if let Ok(rel) = ZkirRelation::from_instructions(&ok) {
             let mut b = vec![];
             rel.write_relation(&mut b).unwrap();
-            irb_case(run, &b, "structured");
+            irb_case(&mut cases, &b, "structured");
             if bincodes.len() < (if quick { 16 } else { 48 }) && b.len() > 8 {
                 bincodes.push(b);
             }
@@ -613,7 +713,7 @@ pub fn run_ir(run: &mut Run) {
         let heavy = bi < (if quick { 3 } else { 12 });
         for t in 0..h.len() {
             if heavy || t % 5 == 0 {
-                irb_case(run, &h[..t], "truncate");
+                irb_case(&mut cases, &h[..t], "truncate");
             }
         }
         // all 256 values of the leading bytes (lengths, tags, payload markers)
@@ -621,14 +721,14 @@ pub fn run_ir(run: &mut Run) {
         for i in 0..lead {
             for v in 0..=255u8 {
                 if heavy || v >= 250 || v < 20 {
-                    irb_case(run, &mutate::subst_byte(h, i, v), &format!("byte{}", i.min(9)));
+                    irb_case(&mut cases, &mutate::subst_byte(h, i, v), &format!("byte{}", i.min(9)));
                 }
             }
         }
         for _ in 0..(if quick { 20 } else { 300 }) {
-            irb_case(run, &mutate::flip_bit(h, &mut rng), "bitflip");
+            irb_case(&mut cases, &mutate::flip_bit(h, &mut rng), "bitflip");
         }
-        irb_case(run, &mutate::append(h, &[0xff, 0xfe]), "appended");
+        irb_case(&mut cases, &mutate::append(h, &[0xff, 0xfe]), "appended");
         // a wide marker spliced at a random position
         for _ in 0..(if quick { 6 } else { 60 }) {
             let at = rng.gen_range(0..h.len());
@@ -637,16 +737,17 @@ pub fn run_ir(run: &mut Run) {
             m.push(marker);
             m.extend(mutate::random_bytes(8, &mut rng));
             m.extend_from_slice(&h[at..]);
-            irb_case(run, &m, "marker-insert");
+            irb_case(&mut cases, &m, "marker-insert");
         }
     }
     for _ in 0..(if quick { 100 } else { 20000 }) {
         let n = rng.gen_range(0..60);
-        irb_case(run, &mutate::random_bytes(n, &mut rng), "random");
+        irb_case(&mut cases, &mutate::random_bytes(n, &mut rng), "random");
         // small random bytes biased to small values (plausible tags/lengths)
         let m: Vec<u8> = (0..n).map(|_| if rng.gen_bool(0.8) { rng.gen_range(0..6) } else { rng.gen() }).collect();
-        irb_case(run, &m, "random-small");
+        irb_case(&mut cases, &m, "random-small");
     }
+    run_irb_batch(run, cases);
 }
 
 /// Prover-local objects: exercised, panics and large allocations are REPORTED ONLY (counted in the
